@@ -1330,7 +1330,9 @@ impl PycParser {
                             index)
                 ).into());
             }
-            Some(v) => v
+            // A flagged reference is itself a reference: point at its target,
+            // so that chains of references do not nest.
+            Some(v) => if let Object::Ref(w) = v.as_ref() { &w.target } else { v }
         };
 
         Ok(Object::Ref(RefObject {
